@@ -676,6 +676,125 @@ class ValidStreams(Component):
         op, cf = parse_case(case)
         return [op + ('/' + cf.get('reader', '') if op == 'decfile' else '')]
 
+# ------------------------------------------------------------------------------------------------
+# C04 / C05 — malformed, damaged and truncated input
+# ------------------------------------------------------------------------------------------------
+class InvalidStreams(Component):
+    """checksum-consistent frames with one field forced to an illegal or extreme value (Lean generator)"""
+    ops = ('streamread', 'decfile')
+    profiles = ('release', 'checked')
+    def __init__(self, mode):
+        self.mode = mode         # 'nopanic' (C04) or 'reject' (C05)
+        self.name = 'invalid-' + mode
+    def cases(self, rng, tier, boost):
+        return driver_gen('invalid', rng.randint(1, 10 ** 9), self.budget(tier, boost, 1500, 80000))
+    def oracle(self, case, impl, profile):
+        op, cf = parse_case(case)
+        h, cls, f = parse_outcome(impl)
+        if h == 'panic':
+            return (f'decode:{profile}:panic:{cls}', f'decoder panicked ({profile}) on a checksum-valid malformed frame of class {cf.get("class")}: {cls}')
+        if self.mode == 'reject' and cf.get('expect') == 'reject':
+            accepted = ('F/' in f.get('seq', '')) if op == 'streamread' else (h == 'ok')
+            if accepted:
+                return (f'must-reject-accepted:{cf.get("class")}', f'a frame of must-reject class {cf.get("class")} was decoded without error')
+        return None
+    def nontrivial(self, case, impl):
+        return True
+    def classify(self, case, impl):
+        op, cf = parse_case(case)
+        return ['class=' + cf.get('class', '?'), 'outcome=' + (impl.split()[0] if impl else '?')]
+
+def crc8(b):
+    c = 0
+    for x in b:
+        c ^= x
+        for _ in range(8):
+            c = ((c << 1) ^ 0x07) & 0xFF if c & 0x80 else (c << 1) & 0xFF
+    return c
+
+def crc16(b):
+    c = 0
+    for x in b:
+        c ^= x << 8
+        for _ in range(8):
+            c = ((c << 1) ^ 0x8005) & 0xFFFF if c & 0x8000 else (c << 1) & 0xFFFF
+    return c
+
+class Damage(Component):
+    """every single-bit flip in the audio frames and every truncation point of small valid files
+    (exhaustive per file), plus flips with the frame CRC-16 repaired, plus raw random bytes"""
+    ops = ('decfile', 'streamread')
+    profiles = ('release', 'checked')
+    def __init__(self, mode):
+        self.mode = mode         # 'nopanic' (C04) or 'detect' (C05)
+        self.name = 'damage-' + mode
+    def cases(self, rng, tier, boost):
+        nfiles = (8 if tier == 'quick' else 40) * (1 if boost == 1 else 3)
+        base = [c for c in driver_gen('valid', rng.randint(1, 10 ** 9), 60 * nfiles) if c.startswith('decfile')]
+        files = []
+        for c in base:
+            op, cf = parse_case(c)
+            n = len(cf['bytes']) // 2
+            if 60 <= n <= (260 if tier == 'quick' else 420):
+                files.append(cf)
+            if len(files) >= nfiles:
+                break
+        out = []
+        for cf in files:
+            data = bytes.fromhex(cf['bytes'])
+            hl = int(cf['headlen'])
+            common = f"reader=sample ch={cf['ch']} bps={cf['bps']} lens={cf['lens']} orig={cf['exp']} kind=mut"
+            for bit in range(hl * 8, len(data) * 8):
+                d = bytearray(data); d[bit // 8] ^= 0x80 >> (bit % 8)
+                out.append(f'decfile {common} mut=flip:{bit} bytes={bytes(d).hex()}')
+            for cut in range(hl, len(data)):
+                out.append(f'decfile {common} mut=cut:{cut} bytes={data[:cut].hex()}')
+            # CRC-16-repaired flips (single-frame files only: the frame ends with the file)
+            if ',' not in cf['lens']:
+                for k in range(60 if tier == 'quick' else 400):
+                    d = bytearray(data)
+                    bit = rng.randint(hl * 8, (len(data) - 2) * 8 - 1)
+                    d[bit // 8] ^= 0x80 >> (bit % 8)
+                    c = crc16(d[hl:-2]); d[-2] = c >> 8; d[-1] = c & 0xFF
+                    out.append(f'decfile {common} mut=flipfix:{bit} bytes={bytes(d).hex()}')
+        # raw bytes (with planted sync codes) into both entry points
+        for k in range(200 if tier == 'quick' else 5000):
+            ln = rng.randint(0, 200)
+            b = bytearray(rng.randint(0, 255) for _ in range(ln))
+            for _ in range(rng.randint(0, 3)):
+                if ln >= 2:
+                    j = rng.randint(0, ln - 2); b[j] = 0xFF; b[j + 1] = rng.choice([0xF8, 0xF9])
+            out.append(f'streamread kind=raw bytes={bytes(b).hex()}')
+            if files:
+                hd = bytes.fromhex(rng.choice(files)['bytes'])[:42]
+                out.append(f'decfile reader={rng.choice(["sample", "byte", "chan", "iter"])} kind=raw bytes={(hd + bytes(b)).hex()}')
+        return out
+    def oracle(self, case, impl, profile):
+        op, cf = parse_case(case)
+        h, cls, f = parse_outcome(impl)
+        if h == 'panic':
+            return (f'decode:{profile}:panic:{cls}', f'decoder panicked ({profile}) on damaged input ({cf.get("mut", cf.get("kind"))}): {cls}')
+        if self.mode != 'detect' or cf.get('kind') != 'mut':
+            return None
+        ch = int(cf['ch'])
+        orig = ints(cf['orig'])
+        lens = ints(cf['lens'])
+        got = ints(f.get('pcm', '-'))
+        if h == 'err':
+            bounds = [0]
+            for l in lens:
+                bounds.append(bounds[-1] + l * ch)
+            if len(got) not in bounds or got != orig[:len(got)]:
+                return ('damage:delivered-not-a-whole-frame-prefix', f'after {cf["mut"]} the samples delivered before the error are not a whole-frame prefix of the original audio')
+            return None
+        # h == 'ok': judged by the L0 verdict in the spec slot (another valid stream or a violation)
+        return None
+    def nontrivial(self, case, impl):
+        return impl.startswith('err') or impl.startswith('ok')
+    def classify(self, case, impl):
+        op, cf = parse_case(case)
+        return ['mut=' + cf.get('mut', cf.get('kind', '?')).split(':')[0], 'outcome=' + (impl.split()[0] if impl else '?')]
+
 PROPS = {}
 NOT_YET = {}
 
